@@ -34,6 +34,7 @@ fn main() {
     "escape" => engines::escape::main(&rest),
     "loop" => engines::loop_script::main(&rest),
     "loop-replay" => engines::loop_script::replay_main(&rest),
+    "tables" => engines::tables::main(&rest),
     other => {
       eprintln!("unknown engine {}", other);
       2
